@@ -504,9 +504,11 @@ where
             }
             Layer::Argmax => {
                 dd.compose::<true, true>(&argmax(dim));
+                dim = 1;
             }
             Layer::ClassChar(clazz) => {
                 dd.compose::<true, false>(&class_characterization(dim, *clazz));
+                dim = 1;
             }
         }
         visitor.finish_layer(
